@@ -98,9 +98,42 @@ func (p *Prog) destTaint() map[paramKey]bool {
 }
 
 func (p *Prog) valueFromParam(v ssa.Value, prm *ssa.Parameter) bool {
+	return p.valueFromParamDepth(v, prm, 0)
+}
+
+// valueFromParamDepth also sees through wrappers: a struct (literal) one of whose fields holds the
+// parameter — `escapeWriter{w}`, `&countingWriter{dst: w}`, bufio.NewWriter(w) — is the parameter
+// for the purpose of "who receives the destination".
+func (p *Prog) valueFromParamDepth(v ssa.Value, prm *ssa.Parameter, depth int) bool {
+	if depth > 3 {
+		return false
+	}
 	for _, o := range p.origins(v, OriginOpts{}) {
 		if o == prm {
 			return true
+		}
+		var obj *ssa.Alloc
+		switch x := o.(type) {
+		case *ssa.Alloc:
+			obj = x
+		case *ssa.UnOp:
+			if a, ok := x.X.(*ssa.Alloc); ok && x.Op == token.MUL {
+				obj = a
+			}
+		}
+		if obj == nil || obj.Referrers() == nil {
+			continue
+		}
+		for _, u := range *obj.Referrers() {
+			fa, ok := u.(*ssa.FieldAddr)
+			if !ok {
+				continue
+			}
+			for _, uu := range *fa.Referrers() {
+				if st, ok := uu.(*ssa.Store); ok && st.Addr == ssa.Value(fa) && p.valueFromParamDepth(st.Val, prm, depth+1) {
+					return true
+				}
+			}
 		}
 	}
 	return false
